@@ -176,6 +176,7 @@ Example C18_ord_algorithm_boundaries :
   num_cmp_rs_res (NUInt 18446744073709551615) (NFloat F_NAN) = Ok Lt /\
   num_cmp_rs_res (NFloat F_NAN) (NInt 5) = Ok Gt.
 Proof. vm_compute. repeat split. Qed.
+Print Assumptions C18_ord_algorithm_boundaries.
 
 (* ---- the codec ---- *)
 Theorem C18_codec_round_trip :
